@@ -198,7 +198,7 @@ long rp_explore_from (FILE *sched, const struct rp_harness *h, long runs, unsign
 		rng = 88172645463325252ULL ^ ((unsigned long long) seed * 0x9E3779B97F4A7C15ULL) ^ ((unsigned long long) r * 0xD1B54A32D192ED03ULL);
 		rt_reset ();
 		h->setup (init);
-		fprintf (of, "T %ld %s%s\n", r + 1, strstr (init, "cont=1") ? "" : "cont=1 ", init);
+		fprintf (of, "T %ld %s%s%s\n", r + 1, strstr (init, "cont=1") ? "" : "cont=1 ", (rt_plain_steps && !strstr (init, "plain=1")) ? "plain=1 " : "", init);
 		rp_diverged = 1; rp_in_prefix = 1;
 		for (i = 0; i < pre.n && !rt_first_violation (); i++) {
 			int actor = 0, off = 0, choice; char label[64];
